@@ -503,6 +503,10 @@ class ChirpZTransformExecutor:
             Q = (Q, Q)
 
         dtype = ary.dtype
+        if dtype.kind not in 'fc':
+            # the chirps are built in this dtype; an integer or boolean array
+            # (e.g. a binary aperture mask) needs a floating point one
+            dtype = config.precision
 
         m, n = ary.shape
         M, N = samples_out
